@@ -348,6 +348,11 @@ def c_point_intersects(rng):
             return out
     if len(view):
         inds = np.array([rng.randrange(len(view)) for _ in range(rng.randint(0, 5))], dtype='int64')
+        if rng.random() < 0.4:
+            # every position once, in another order (what a spatial index hands over when all rows are candidates)
+            perm = list(range(len(view)))
+            rng.shuffle(perm)
+            inds = np.array(perm, dtype='int64')
         gi = pts.arr.intersects(shape, inds)
         if [bool(x) for x in gi] != [bool(got[i]) for i in inds]:
             out.append(V(f'pointarray.intersects/{skind}/inds-form', f'inds {inds.tolist()}', pts.recipe, shape=[skind, shape_el]))
@@ -401,6 +406,10 @@ def c_point_intersects_special(rng):
                              {'kind': 'point', 'elements': cand, 'steps': []}, shape=[skind, shape_el]))
                 break
         inds = np.array([rng.randrange(len(cand)) for _ in range(rng.randint(1, 4))], dtype='int64')
+        if rng.random() < 0.5:
+            perm = list(range(len(cand)))
+            rng.shuffle(perm)
+            inds = np.array(perm, dtype='int64')
         gi = arr.intersects(shape, inds)
         if [bool(x) for x in gi] != [bool(got[i]) for i in inds]:
             out.append(V(f'pointarray.intersects-special/{skind}/inds-form', f'inds {inds.tolist()}',
